@@ -159,6 +159,13 @@ def run_check(pid, P, tier, seed, replay, wd, t0):
             else:
                 mism.append(entry)
 
+    gj = P.get("group_judge")
+    if gj:
+        for r, fails in gj(recs):
+            entry = {"scenario": r["scn"], "detail": None, "property_failures": fails}
+            if props.match_known(findings, r, None, fails) is None:
+                definite.append(entry)
+
     # ---- 4. failing-input search when something broke without a concrete failing input
     searched = 0
     if (proof_problems or mism) and not definite and not replay:
